@@ -98,10 +98,10 @@ def run_cases(run, cases, label, use_oracle=True):
             want = unquote_marks(ref.ev(c["page_ast"], None), r["out"])
             if not ref.unsupported and want != r["out"]:
                 sig = None
-                for kl, tf, name in ((True, False, "c04:trailing-newline-dropped"),
-                                     (False, True, "c04:named-value-trimmed-before-expansion"),
-                                     (True, True, "c04:trailing-newline-dropped+trimmed-before-expansion")):
-                    r2 = G.Ref(lib_for_ref, kludge=kl, trim_first=tf)
+                for kl, sw, name in ((True, False, "c04:trailing-newline-dropped"),
+                                     (False, True, "c04:switch-default-vs-trailing-bare-item"),
+                                     (True, True, "c04:trailing-newline-dropped+c04:switch-default-vs-trailing-bare-item")):
+                    r2 = G.Ref(lib_for_ref, kludge=kl, trim_first=False, switch_default_wins=sw)
                     if unquote_marks(r2.ev(c["page_ast"], None), r["out"]) == r["out"]:
                         sig = name
                         break
